@@ -112,8 +112,8 @@ static void trace_header(int argc, char **argv) {
     if (conf_mem) { the_conf.mem_alloc = vf_conf_malloc; the_conf.mem_calloc = vf_conf_calloc; the_conf.mem_free = vf_conf_free; }
     vf_set_plan(plan ? plan : "");
     enum cc_stat s;
-    if (kind_queue) s = (dflt && !conf_mem) ? cc_queue_new(&q1) : cc_queue_new_conf(&the_conf, &q1);
-    else            s = (dflt && !conf_mem) ? cc_deque_new(&cur) : cc_deque_new_conf(&the_conf, &cur);
+    if (kind_queue) s = VF_OUT(q1, (dflt && !conf_mem) ? cc_queue_new(&q1) : cc_queue_new_conf(&the_conf, &q1));
+    else            s = VF_OUT(cur, (dflt && !conf_mem) ? cc_deque_new(&cur) : cc_deque_new_conf(&the_conf, &cur));
     P("new %s", vf_stat(s));
     if (s != CC_OK) { cur = NULL; q1 = NULL; P(" |"); P_ledger(); return; }
     if (!kind_queue && first && size) {
@@ -157,9 +157,9 @@ static void run_deque_op(int argc, char **argv) {
     else if (!strcmp(op, "index_of")) { size_t ix = 0x5E5E; s = cc_deque_index_of(cur, ptr(A(1)), &ix); P("%s %s", op, vf_stat(s)); if (s == CC_OK) P(" %zu", ix); }
     else if (!strcmp(op, "filter_mut")) { pred_m = vf_num(A(1)); if (!pred_m) pred_m = 1; pred_r = vf_num(A(2)); P("%s %s", op, vf_stat(cc_deque_filter_mut(cur, pred))); }
     else if (!strcmp(op, "foreach")) { cb_n = 0; cc_deque_foreach(cur, cb_collect); P("%s OK ", op); cb_print("cb"); }
-    else if (!strcmp(op, "copy_shallow")) { CC_Deque *r = NULL; s = cc_deque_copy_shallow(cur, &r); new_other(op, s, r); }
-    else if (!strcmp(op, "copy_deep")) { CC_Deque *r = NULL; s = cc_deque_copy_deep(cur, cp_fn, &r); new_other(op, s, r); }
-    else if (!strcmp(op, "filter")) { CC_Deque *r = NULL; pred_m = vf_num(A(1)); if (!pred_m) pred_m = 1; pred_r = vf_num(A(2)); s = cc_deque_filter(cur, pred, &r); new_other(op, s, r); }
+    else if (!strcmp(op, "copy_shallow")) { CC_Deque *r = VF_SENT; s = vf_out_check(cc_deque_copy_shallow(cur, &r), (void**)&r); new_other(op, s, r); }
+    else if (!strcmp(op, "copy_deep")) { CC_Deque *r = VF_SENT; s = vf_out_check(cc_deque_copy_deep(cur, cp_fn, &r), (void**)&r); new_other(op, s, r); }
+    else if (!strcmp(op, "filter")) { CC_Deque *r = VF_SENT; pred_m = vf_num(A(1)); if (!pred_m) pred_m = 1; pred_r = vf_num(A(2)); s = vf_out_check(cc_deque_filter(cur, pred, &r), (void**)&r); new_other(op, s, r); }
     else if (!strcmp(op, "swap")) { if (oth) { CC_Deque *t = cur; cur = oth; oth = t; have_it = have_zit = 0; P("swap OK"); } else P("swap NONE"); }
     else if (!strcmp(op, "drop")) { if (oth) { cc_deque_destroy(oth); oth = NULL; have_zit = 0; P("drop OK"); } else P("drop NONE"); }
     else if (!strcmp(op, "iter_init")) { cc_deque_iter_init(&it, cur); have_it = 1; P("%s OK", op); }
@@ -189,7 +189,7 @@ static void run_queue_op(int argc, char **argv) {
     else if (!strcmp(op, "new2")) {
         if (q2) { cc_queue_destroy(q2); q2 = NULL; have_qzit = 0; }
         CC_QueueConf c2 = the_conf; c2.capacity = vf_num(A(1));
-        s = cc_queue_new_conf(&c2, &q2); if (s != CC_OK) q2 = NULL;
+        s = VF_OUT(q2, cc_queue_new_conf(&c2, &q2));
         P("%s %s", op, vf_stat(s));
     }
     else if (!strcmp(op, "enqueue2")) { if (q2) P("%s %s", op, vf_stat(cc_queue_enqueue(q2, ptr(A(1))))); else P("%s NONE", op); }
